@@ -264,8 +264,8 @@ def choice_cases(tier):
     lists = [list(p) for n in (1, 2, 3) for p in itertools.permutations(CHOICE_POOL, n)]
     cells = CHOICE_POOL + ["re", "redx", "a", "b", "x", "A B"]
     # values that begin or end with a quote character of the other kind than the one the token is written in
-    quote_cells = ['19"', "19", '24"', "Jones'", "Jones", "'t Hooft", "t Hooft", '"q"', "q", "''", "'"]
-    for choices in (['19"', '24"'], ["Jones'", "'t Hooft", "red"], ['"q"', "red"], ["''", "q"]):
+    quote_cells = ['19"', "19", '24"', "Jones'", "Jones", "'t Hooft", "t Hooft", '"q"', "q", "''", "'", "...", "\u2026", "a...b", "a\u2026b", "n/a"]
+    for choices in (['19"', '24"'], ["Jones'", "'t Hooft", "red"], ['"q"', "red"], ["''", "q"], ["...", "n/a"], ["\u2026", "a...b"]):
         for preset in ("delimited", "fixed", "excel", "ods"):
             decl = {"type": "Choice", "preset": preset, "rule": {"choices": choices, "quoted": True}}
             if preset == "fixed":
@@ -286,7 +286,7 @@ def choice_cases(tier):
 
 def constant_cases(tier):
     cases = []
-    for token, style in (("abc", "str"), ("a b", "str"), ("42", "int"), ("3.14", "float"), ("abc", "name"), ("ä", "str"), ("Abc", "str"), ('5"', "str"), ("'s", "str"), ('"q"', "str")):
+    for token, style in (("abc", "str"), ("a b", "str"), ("42", "int"), ("3.14", "float"), ("abc", "name"), ("ä", "str"), ("Abc", "str"), ('5"', "str"), ("'s", "str"), ('"q"', "str"), ("...", "str"), ("a...b", "str")):
         cells = [token, token.upper(), token.lower(), token[:-1] or "z", token + "x", "z" + token, token + ".0", " " + token, token.strip("\"'"), token[1:]]
         cells = [c for c in dict.fromkeys(cells) if c]
         for preset in ("delimited", "fixed", "excel", "ods"):
@@ -357,6 +357,13 @@ def pattern_cases(tier):
                 if preset == "fixed":
                     decl["width"] = 4
                 cases.append({"decl": decl, "cells": ABC_CELLS, "no_cid": n > 2})
+    # rules that contain three dots (the ellipsis of ranges means nothing in a glob): also through the CID path
+    for tokens in (["v", ".", ".", ".", "*"], [".", ".", "."], ["a", ".", ".", ".", "b"]):
+        for preset in ("delimited", "fixed"):
+            decl = {"type": "Pattern", "preset": preset, "rule": {"tokens": tokens}}
+            if preset == "fixed":
+                decl["width"] = 8
+            cases.append({"decl": decl, "cells": ["v...", "v\u2026", "v...beta", "V...x", "...", "\u2026", "a...b", "a\u2026b", "vabc", "v..", "axyzb"]})
     return cases
 
 
@@ -370,7 +377,8 @@ def regex_cases(tier):
                 decl = {"type": "RegEx", "preset": preset, "rule": {"ast": ast}}
                 if preset == "fixed":
                     decl["width"] = 4
-                cases.append({"decl": decl, "cells": ABC_CELLS, "no_cid": n > 2})
+                # rules rendered with three consecutive dots also go through the CID path (there '...' is the ellipsis of ranges only)
+                cases.append({"decl": decl, "cells": ABC_CELLS + ["a\u2026", "\u2026"], "no_cid": n > 2 and "..." not in fieldmodel.render_rule("RegEx", decl["rule"])})
     return cases
 
 
